@@ -178,7 +178,7 @@ B("c11-warp-end-ignored", "C11", ENGINE, "        elif event.tag == EventTag.WAR
 B("c11-offset-sign", "C11", ENGINE, "time=SongTime(-self.timing_data.offset),", "time=SongTime(self.timing_data.offset),", "offset")
 B("c11-coalesce-lt", "C11", ENGINE, "                if warp.beat <= last_warp_end:", "                if warp.beat < last_warp_end:", "union")
 B("c11-warp-end-start", "C11", ENGINE, "            warp_end = warp.beat + Beat(warp.value)", "            warp_end = Beat(warp.value)", "overlapping or touching")
-B("c11-merge-reverse", "C11", ENGINE, "        for tagged_event in chronological_events:\n            self._state_machine.advance(tagged_event)", "        for tagged_event in sorted(chronological_events, key=lambda e: e.tag):\n            self._state_machine.advance(tagged_event)", "merge order")
+B("c11-merge-reverse", "C11", ENGINE, "        for tagged_event in chronological_events:\n            self._state_machine.advance(tagged_event)", "        for tagged_event in sorted(chronological_events, key=lambda e: e.tag):\n            self._state_machine.advance(tagged_event)", "merged by TaggedEvent order")
 B("c11-lt-tag-first", "C11", ENGINE, "        if self.beat < other.beat:\n            return True\n        if self.beat == other.beat:\n            if self.tag < other.tag:\n                return True\n        return False", "        if self.tag < other.tag:\n            return True\n        if self.tag == other.tag:\n            if self.beat < other.beat:\n                return True\n        return False", "bisect")
 B("c11-bisect-no-minus-1", "C11", ENGINE, "        prior_state_index = max(0, bisect(self._tagged_beats, tagged_beat) - 1)\n        prior_state: TimingState = self._state_machine[prior_state_index]\n\n        return SongTime(", "        prior_state_index = max(0, bisect(self._tagged_beats, tagged_beat))\n        prior_state: TimingState = self._state_machine[prior_state_index]\n\n        return SongTime(", "prior state index")
 B("c11-time-from-event-beat", "C11", ENGINE, "            beats_until = beat - self.event.beat", "            beats_until = beat", "elapsed time")
